@@ -251,6 +251,19 @@ def gen_cases(rng, tier, ctx):
         if all(_usable(e, scope, 'in_scope') for e in es):
             cases.append({'kind': 'vec', 'exprs': es, 'scope': scope,
                           'path': rng.choice(['in_scope', 'serial', 'item', 'symfull', 'numeric'])})
+    # --- 7b. closed formulas and plain numbers (serialised as numbers, not strings) ---------------------------------
+    for k in range(50 * mul):
+        cfgc = {'nvars': 0, 'sum': rng.random() < 0.3, 'idx': False, 'ibc': False, 'ite': rng.random() < 0.2, 'fn': False}
+        if rng.random() < 0.5:
+            q = rng.choice([F(rng.randint(-9, 9)), F(rng.randint(-40, 40), rng.choice([2, 4, 8]))])
+            e = ['c', str(q), rng.choice(['f', 'f', 'r', 'i']) if q.denominator == 1 else rng.choice(['f', 'r'])]
+            if e[2] == 'i' and q.denominator != 1:
+                e[2] = 'r'
+        else:
+            e = X.g_expr(rng, rng.choice([1, 2]), (), cfgc)
+        calls = [{'path': p, 'scope': {}} for p in ['serial', 'in_scope', 'exact', 'serial'] if _usable(e, {}, p)]
+        if calls:
+            cases.append({'kind': 'eval', 'expr': e, 'route': rng.choice(['str', 'str', 'sym']), 'calls': calls})
     # --- 8. malformed stream ------------------------------------------------------------------------------------------
     for k in range(60 * mul):
         cfg = {'nvars': 3, 'fn': False}
@@ -793,6 +806,48 @@ def _fails(a, tol, o):
     return not ('err' in o or 'nan' in o)
 
 
+def _int_division(e, scope):
+    """does the formula, in exact mode, divide two int-typed operands (Python true division -> float)?"""
+    found = []
+
+    def ty(e, sc):
+        k = e[0]
+        if k == 'c':
+            return 'int' if F(e[1]).denominator == 1 and e[2] != 'f' else ('float' if e[2] == 'f' else 'time')
+        if k == 'v':
+            t = sc.get(e[1], 'int')
+            return 'time' if t == 'time' else 'float' if t in ('float', 'npfloat') else 'int'
+        if k in ('nan', 'idx'):
+            return 'int'
+        if k == 'u':
+            t = ty(e[2], sc)
+            if e[1].startswith('pow:') and int(e[1][4:]) < 0 and t == 'int':
+                found.append(e)
+                return 'float'
+            return 'int' if e[1] in ('floor', 'ceil', 'not') else t
+        if k == 'b':
+            a, b = ty(e[2], sc), ty(e[3], sc)
+            if e[1] in ('div', 'floordiv') and a == 'int' and b == 'int':
+                found.append(e)
+                return 'float' if e[1] == 'div' else 'int'
+            if e[1] in X.CMPS + ['and', 'or', 'floordiv']:
+                return 'int'
+            return 'float' if 'float' in (a, b) else 'time' if 'time' in (a, b) else 'int'
+        if k == 'ite':
+            ty(e[1], sc)
+            a, b = ty(e[2], sc), ty(e[3], sc)
+            return 'float' if 'float' in (a, b) else 'time' if 'time' in (a, b) else 'int'
+        if k == 'sum':
+            ty(e[2], sc), ty(e[3], sc)
+            return ty(e[4], dict(sc, **{e[1]: 'int'}))
+        if k == 'ibc':
+            ty(e[3], sc)
+            return ty(e[1], sc)
+        return 'int'
+    ty(e, {x: tv['ty'] for x, tv in scope.items()})
+    return bool(found)
+
+
 def _closed_floordiv(e):
     return any(s[0] == 'b' and s[1] == 'floordiv' and not X.fv(s) and not X.fvv(s) for s in X.subterms(e))
 
@@ -814,6 +869,9 @@ def _classify_call(e, kinds, scope, path, route, o, exact_required, extra_types=
             return 'ok'
         if 'time' in types and 'err' in o:
             return 'timetype-ndarray'
+        if 'err' in o and o['err'] != 'unbound' and 'ite' in kinds and \
+                any(X.eager_fails(e, dict(sc, **{x: l[j] for x, l in arr.items()}), vc) for j in range(n)):
+            return 'piecewise-eager'
         if o.get('err') == 'other:ValueError' and kinds & {'and', 'or'}:
             return 'array-and-mixed-shapes'
         return None
@@ -829,7 +887,8 @@ def _classify_call(e, kinds, scope, path, route, o, exact_required, extra_types=
         return None
     if _closed_floordiv(e) and 'val' in o:
         return 'sympy-number-floordiv'
-    if exact_required and _float_close(o, a['value']) and o.get('ty') in ('float', 'float64', 'TimeType'):
+    if exact_required and _float_close(o, a['value']) and o.get('ty') in ('float', 'float64', 'TimeType') and \
+            _int_division(e, scope):
         return 'exact-int-div'
     if 'err' in o and o['err'] != 'unbound' and 'ite' in kinds and X.eager_fails(e, sc, vc):
         return 'piecewise-eager'
@@ -862,11 +921,19 @@ def classify(case, obs):
             return None if r == 'ok' else r
         if k == 'vec':
             o = obs['obs']
+            vpath = 'symfull' if case['path'] == 'symfull' else 'in_scope'
             if 'err' in o:
                 for e in case['exprs']:
-                    r = _classify_call(e, X.kinds(e), case['scope'], 'in_scope', 'str', o, False)
+                    r = _classify_call(e, X.kinds(e), case['scope'], vpath, 'str', o, False)
                     if r not in (None, 'ok'):
                         return r
+            if 'arr' in o and len(o['arr']) == len(case['exprs']):
+                ids = set()
+                for e, v in zip(case['exprs'], o['arr']):
+                    ids.add(_classify_call(e, X.kinds(e), case['scope'], vpath, 'str',
+                                           {'val': v, 'ty': 'float'} if v is not None else {'nan': True}, False))
+                ids.discard('ok')
+                return sorted(ids)[0] if ids and None not in ids else None
             return None
         if k == 'build':
             o = obs['obs']
